@@ -428,7 +428,7 @@ func (x *Exec) havocDeclared(st *State, pre *State, callee *ssa.Function, ct *Co
 				continue
 			}
 		}
-		if e.Kind == "call" && len(e.Args) == 1 && (e.Name == "sent" || e.Name == "closed" || e.Name == "recvd" || e.Name == "written" || e.Name == "cancelled") {
+		if e.Kind == "call" && len(e.Args) == 1 && e.Args[0].Kind != "str" && (e.Name == "sent" || e.Name == "closed" || e.Name == "recvd" || e.Name == "written" || e.Name == "cancelled") {
 			pe := *env
 			pe.st = pre
 			ch := pe.eval(e.Args[0])
@@ -481,6 +481,10 @@ func (x *Exec) havocDeclared(st *State, pre *State, callee *ssa.Function, ct *Co
 		for _, k := range keys {
 			if strings.HasPrefix(k, "#BAD:") {
 				x.specError(e, fmt.Errorf("cannot resolve modifies target"))
+				continue
+			}
+			if i := strings.Index(k, ":"); i > 0 && (strings.HasPrefix(k, ghSent+":") || strings.HasPrefix(k, ghRecvd+":")) {
+				x.havocTyped(st, k[:i], x.chanTag(ct.Pkg, k[i+1:]))
 				continue
 			}
 			m[k] = true
@@ -737,6 +741,7 @@ func (x *Exec) checkFrame(st *State, r *ssa.Return) {
 	ct := x.ct
 	allowedWild := map[string]bool{}
 	allowedLoc := map[string][]*Term{}
+	allowedTyped := map[string][]*Term{}
 	for _, e := range ct.Modifies {
 		keys := x.P.modExprKeys(x.fn, ct, e)
 		isLoc := false
@@ -754,7 +759,7 @@ func (x *Exec) checkFrame(st *State, r *ssa.Return) {
 				}
 			}
 		}
-		if e.Kind == "call" && len(e.Args) == 1 && (e.Name == "sent" || e.Name == "closed" || e.Name == "recvd" || e.Name == "written" || e.Name == "cancelled") {
+		if e.Kind == "call" && len(e.Args) == 1 && e.Args[0].Kind != "str" && (e.Name == "sent" || e.Name == "closed" || e.Name == "recvd" || e.Name == "written" || e.Name == "cancelled") {
 			env := &Env{x: x, st: x.entry, old: x.entry, fn: x.fn, binds: map[string]specBinding{}, cells: true, mode: "pre", pkg: fnPkg(x.fn)}
 			for n, v := range x.params {
 				env.binds[n] = specBinding{v, x.paramType(n)}
@@ -773,6 +778,11 @@ func (x *Exec) checkFrame(st *State, r *ssa.Return) {
 		}
 		if !isLoc {
 			for _, k := range keys {
+				if i := strings.Index(k, ":"); i > 0 && (strings.HasPrefix(k, ghSent+":") || strings.HasPrefix(k, ghRecvd+":")) {
+					// typed wildcard: channels of one element type
+					allowedTyped[k[:i]] = append(allowedTyped[k[:i]], x.chanTag(ct.Pkg, k[i+1:]))
+					continue
+				}
 				allowedWild[k] = true
 			}
 		}
@@ -826,6 +836,10 @@ func (x *Exec) checkFrame(st *State, r *ssa.Return) {
 		}
 		for _, b := range allowedLoc[lk] {
 			conds = append(conds, Neq(sk, b))
+		}
+		for _, tg := range allowedTyped[lk] {
+			theU.DeclFunc("chtype", SInt, SInt)
+			conds = append(conds, Neq(App("chtype", SInt, sk), tg))
 		}
 		cp := st.clone()
 		x.oblige(cp, "frame", ":"+k, Implies(And(conds...), Eq(Select(cur, sk), Select(entryArr, sk))), r.Pos(),
@@ -923,4 +937,55 @@ func dynNameOf(fn *ssa.Function, v ssa.Value) string {
 		}
 	}
 	return "dyn:" + v.Name()
+}
+
+// chanTag: the type tag of "chan T" for a type name resolved in a package.
+func (x *Exec) chanTag(pkgPath, name string) *Term {
+	t := x.P.resolveTypeName(pkgPath, name)
+	if t == nil {
+		x.specErrs = append(x.specErrs, "unknown channel type "+name)
+		return IntLit(-1)
+	}
+	if ct, ok := t.Underlying().(*types.Chan); ok {
+		t = types.NewChan(types.SendRecv, ct.Elem())
+	}
+	return IntLit(int64(x.P.typeTag(t)))
+}
+
+// havocTyped: channel ghosts of one channel type become unknown; every other channel keeps its
+// value (quantified frame fact with a trigger on reads of the new array).
+func (x *Exec) havocTyped(st *State, key string, tag *Term) {
+	keys := []string{key}
+	if key == ghSent {
+		for h := range heapSorts {
+			if strings.HasPrefix(h, ghLast+"$") {
+				keys = append(keys, h)
+			}
+		}
+	}
+	if key == ghRecvd {
+		for h := range heapSorts {
+			if strings.HasPrefix(h, "#lrecv$") {
+				keys = append(keys, h)
+			}
+		}
+	}
+	sort.Strings(keys)
+	theU.DeclFunc("chtype", SInt, SInt)
+	for _, k := range keys {
+		old := st.heapArr(k, heapSorts[k])
+		nw := x.freshVar(k, heapSorts[k])
+		st.heap[k] = nw
+		rv := Var("bv!c", SInt)
+		body := Implies(Neq(App("chtype", SInt, rv), tag), Eq(Select(nw, rv), Select(old, rv)))
+		f := &Term{Op: "forall", Args: []*Term{rv, body}, Sort: SBool}
+		f.key = "(forall ((bv!c Int)) (! " + body.Key() + " :pattern (" + Select(nw, rv).Key() + ")))"
+		st.add(f)
+		if k == ghSent || k == ghRecvd {
+			mono := Ge(Select(nw, rv), Select(old, rv))
+			g := &Term{Op: "forall", Args: []*Term{rv, mono}, Sort: SBool}
+			g.key = "(forall ((bv!c Int)) (! " + mono.Key() + " :pattern (" + Select(nw, rv).Key() + ")))"
+			st.add(g)
+		}
+	}
 }
